@@ -273,12 +273,12 @@ MC_DEFAULT = {"quick": ["MC_one"], "thorough": ["MC_one", "MC_err_cancel", "MC_d
 
 PROPS = {
     "C01": {"level": "model_checking", "model_replay": (60, 600), "runner": run_c01, "also": ["C13_ChunksAddUp", "C13_Framing"], "mc": {"quick": ["MC_one", "MC_two_stepped"], "thorough": ["MC_one", "MC_two_stepped", "MC_err_cancel", "MC_down_cancel", "MCT_one_close"]},
-            "quick": lambda s: gen.fam_data(s, 64) + gen.fam_life(s, 4, policies=("lazy", "slowsrv", "slowcli"), causes=("close", "ctxcancel"), fcs=("fc",))
+            "quick": lambda s: gen.fam_data(s, 64) + gen.fam_misuse(s) + gen.fam_life(s, 4, policies=("lazy", "slowsrv", "slowcli"), causes=("close", "ctxcancel"), fcs=("fc",))
                                + gen.fam_cancel(s, 4, policies=("lazy", "slowsrv", "slowcli"), fcs=("fc",))
                                + gen.fam_gates(s, 3, gates=["cli.alloc", "cli.new.sent", "car.sent.c2s.new", "car.sent.c2s.msg", "car.sent.s2c.msg", "srv.watch.fired"], faults=("none", "cancel@park", "cancel")),
             "thorough": lambda s: gen.fam_data(s, 600, big=True) + gen.fam_life(s, 0) + gen.fam_cancel(s, 0) + gen.fam_gates(s, 0)},
     "C13": {"level": "model_checking", "model_replay": (40, 400), "mc": {"quick": ["MC_one", "MC_down_cancel"], "thorough": ["MC_one", "MC_down_cancel", "MC_err_cancel", "MC_two_stepped", "MCT_two_stepped_all"]},
-            "quick": lambda s: gen.fam_data(s, 48) + gen.fam_cancel(s, 4, policies=("eager", "slowcli"), fcs=("fc",)) + gen.fam_indep(s, 4, policies=("random",))
+            "quick": lambda s: gen.fam_data(s, 48) + gen.fam_misuse(s) + gen.fam_cancel(s, 4, policies=("eager", "slowcli"), fcs=("fc",)) + gen.fam_indep(s, 4, policies=("random",))
                                + gen.fam_free(s, 48) + [x for x in gen.fam_hostile_srv(s) if "-off-" in x["name"] or "-legacy-" in x["name"]][:60] + gen.fam_neg(s)[:40],
             "thorough": lambda s: gen.fam_data(s, 400, big=True) + gen.fam_cancel(s, 0) + gen.fam_indep(s, 0) + gen.fam_life(s, 12) + gen.fam_gates(s, 4)},
     "C06": {"level": "model_checking", "model_replay": (30, 300), "runner": run_c06, "hang": True,
@@ -305,8 +305,8 @@ PROPS = {
             "quick": lambda s: gen.fam_meta(s, 160) + gen.fam_data(s, 24),
             "thorough": lambda s: sum((gen.fam_meta(s + i, 400, gated=(i == 0)) for i in range(4)), []) + gen.fam_data(s, 200)},
     "C16": {"level": "model_checking",
-            "quick": lambda s: gen.fam_shape(s),
-            "thorough": lambda s: gen.fam_shape(s) + gen.fam_hostile_srv(s) + gen.fam_hostile_cli(s)},
+            "quick": lambda s: gen.fam_shape(s) + gen.fam_misuse(s),
+            "thorough": lambda s: gen.fam_shape(s) + gen.fam_misuse(s) + gen.fam_hostile_srv(s) + gen.fam_hostile_cli(s)},
     "C11": {"level": "model_checking", "hang": True,
             "quick": lambda s: gen.fam_neg(s),
             "thorough": lambda s: gen.fam_neg(s) + gen.fam_data(s, 120)},
